@@ -240,3 +240,7 @@ for Atomic<'static, ItemType, BUFFER_SIZE, MAX_STREAMS> {
     }
 
 }
+
+/// verification hook (compiled only under `cargo kani` or `--cfg reactive_mutiny_verif`): harnesses live outside this repository
+#[cfg(any(kani, reactive_mutiny_verif))]
+pub(crate) mod verif_hooks { include!(concat!(env!("REACTIVE_MUTINY_VERIF_DIR"), "/kani/uni_movable_atomic.rs")); }
